@@ -186,6 +186,21 @@ Example C17_field_func_assign_nonvacuous : field_func_fields = ["B"; "H"] /\ fie
   assign_func "CustomSource" r (FCallable false []) = Bad /\ assign_func "Cuboid" r FNone = Crash.
 Proof. split; [reflexivity|]. split; [reflexivity|]. eexists. split; [vm_compute; reflexivity|]. repeat split. Qed.
 
+(* the documented None ("not yet set") never reaches a core: _getBH_level2 calls check_dimensions and
+   check_excitations (call sites and argument names TRANSLATED), each on the FLATTENED source list -- so a None inside
+   a (nested) Collection is reported as MagpylibMissingInput too --, and every None-able documented attribute is one
+   of the attributes those checks look at (translated tuples; magnetization through its twin polarization;
+   Sensor.pixel = None means one pixel at the origin) *)
+Theorem C17_completeness_checks :
+  forallb (fun c : string * string => String.eqb (snd c) flattened_sources_name) completeness_calls &&
+  str_mem "check_dimensions" (map fst completeness_calls) &&
+  str_mem "check_excitations" (map fst completeness_calls) &&
+  forallb (fun d => negb (d_none d) ||
+                    str_mem (d_attr d) (dimension_args ++ excitation_args ++ ["magnetization"; "pixel"])) doc_table &&
+  forallb (fun d => negb (sd_none d) || str_mem (sd_attr d) (dimension_args ++ excitation_args)) sdoc_table = true.
+Proof. exact completeness_ok_lemma. Qed.
+Print Assumptions C17_completeness_checks.
+
 (* accepted values are stored unchanged: same entries, same shape (position: reshaped to (-1,3)) *)
 Theorem C17_stored_faithfully : forall r s vals s' vals',
   assign_vec r (IArray s vals) = Stored (Some (s', vals')) ->
